@@ -45,13 +45,27 @@ Definition spec_learn (tb : abs_table) (src eth p : bytes) : abs_table :=
       tb_set tb src (entry_of mac d)
   end.
 
-(* the specification's step on (table, process-wide RA counter) *)
-Definition spec_step (s : abs_table * Z) (e : event) : abs_table * Z :=
+(* the specification's state: the table, the process-wide RA counter (a package-level variable shared
+   by every Handler6 of the process) and the default router *)
+Record spec_state := mkSpec { sp_table : abs_table; sp_rep : Z; sp_default : option bytes }.
+
+(* the default router (the one whose existence enables the attack) is the most recently CREATED entry:
+   it does not change when an entry is updated, when its lifetime goes to 0 or when another router
+   advertises a higher preference; a rejected advertisement creates nothing *)
+Definition spec_default (tb : abs_table) (dflt : option bytes) (src p : bytes) : option bytes :=
+  match ra_decode_lenient p with
+  | None => dflt
+  | Some _ => match tb_find tb src with Some _ => dflt | None => Some src end
+  end.
+
+Definition spec_step (s : spec_state) (e : event) : spec_state :=
   match e with
   | RxRA src eth p hk =>
       if blen p <? 16 then s else
-      let rep := (snd s + 1)%Z in
-      if negb (Z.rem rep 4 =? 0)%Z || negb hk then (fst s, rep) else (spec_learn (fst s) src eth p, rep)
+      let rep := (sp_rep s + 1)%Z in
+      if negb (Z.rem rep 4 =? 0)%Z || negb hk then mkSpec (sp_table s) rep (sp_default s)
+      else mkSpec (spec_learn (sp_table s) src eth p) rep (spec_default (sp_table s) (sp_default s) src p)
+  | Tick => mkSpec (sp_table s) (sp_rep s + 1)%Z (sp_default s)     (* an RA seen by another handler of the process *)
   | _ => s
   end.
 
@@ -61,7 +75,7 @@ Definition abs_router_of (r : router) : abs_router :=
         (o_slla (r_opts r)) (r_mtu r) (r_prefixes r)
         (o_routes (r_opts r)) (o_rdnss_all (r_opts r)) (o_dnssl_all (r_opts r)).
 Definition abs_table_of (l : list (bytes * router)) : abs_table := map (fun kr => (fst kr, abs_router_of (snd kr))) l.
-Definition abs (st : state) : abs_table * Z := (abs_table_of (routers st), repeat_ st).
+Definition abs (st : state) : spec_state := mkSpec (abs_table_of (routers st)) (repeat_ st) (defrouter st).
 
 Lemma abs_find l k : tb_find (abs_table_of l) k = option_map abs_router_of (rt_find l k).
 Proof. induction l as [|[k0 r0] t IH]; [reflexivity|]. cbn. destruct (bytes_eqb k0 k); [reflexivity|exact IH]. Qed.
@@ -98,30 +112,31 @@ Definition ev_ok (e : event) : Prop := match e with RxRA _ _ p _ => bytes_ok p |
 
 Theorem refinement c st e : ev_ok e -> abs (fst (step c st e)) = spec_step (abs st) e.
 Proof.
-  intros Hev. destruct e as [a|a| |i order|i|src eth p hk|q]; cbn [step spec_step].
+  intros Hev. destruct e as [a|a| |i order|i|src eth p hk|q| ]; cbn [step spec_step].
   - unfold start_hunt. destruct (is4 (a_ip a)); [reflexivity|]. destruct (is6 _ && _); [reflexivity|].
     destruct (al_has _ _); reflexivity.
   - unfold stop_hunt. destruct (_ && _); reflexivity.
   - unfold close. destruct (closed st); reflexivity.
-  - unfold abs. destruct (lookup_frame st i order) as [_ [Fr [_ [_ Fp]]]]. rewrite Fr, Fp. reflexivity.
-  - unfold abs. destruct (send_frame c st i) as [_ [Fr [_ [_ Fp]]]]. rewrite Fr, Fp. reflexivity.
-  - cbn [ev_ok] in Hev. unfold rx_ra. cbn [abs snd fst].
+  - unfold abs. destruct (lookup_frame st i order) as [_ [Fr [Fd [_ Fp]]]]. rewrite Fr, Fp, Fd. reflexivity.
+  - unfold abs. destruct (send_frame c st i) as [_ [Fr [Fd [_ Fp]]]]. rewrite Fr, Fp, Fd. reflexivity.
+  - cbn [ev_ok] in Hev. unfold rx_ra. cbn [abs sp_rep sp_table sp_default].
     destruct (blen p <? 16) eqn:E16; [reflexivity|].
     destruct (negb (Z.rem (repeat_ st + 1) 4 =? 0)%Z) eqn:Er; cbn [orb]; [reflexivity|].
     destruct (negb hk) eqn:Eh; [reflexivity|].
     assert (Hlen : (16 <= List.length p)%nat) by (unfold blen in E16; lia).
-    rewrite (ra_options_total p Hev Hlen). unfold spec_learn.
+    rewrite (ra_options_total p Hev Hlen). unfold spec_learn, spec_default.
     destruct (ra_decode_lenient p) as [d|] eqn:Ed; [|reflexivity].
     unfold abs. cbn [fst snd]. rewrite abs_find.
-    destruct (rt_find (routers st) src) as [r0|] eqn:Ef; cbn [option_map routers repeat_ fst snd].
+    destruct (rt_find (routers st) src) as [r0|] eqn:Ef; cbn [option_map routers repeat_ defrouter fst snd].
     + rewrite abs_set, (update_entry r0 p d Hev Ed). reflexivity.
     + rewrite abs_set, (update_entry _ p d Hev Ed). cbn [router_new r_mac].
       rewrite fold_slla_len. reflexivity.
   - reflexivity.
+  - reflexivity.
 Qed.
 
 (* over whole histories *)
-Fixpoint spec_run (s : abs_table * Z) (evs : list event) : abs_table * Z :=
+Fixpoint spec_run (s : spec_state) (evs : list event) : spec_state :=
   match evs with [] => s | e :: r => spec_run (spec_step s e) r end.
 
 Theorem refinement_run c : forall evs st, Forall ev_ok evs ->
@@ -148,9 +163,54 @@ Proof.
   - repeat split; reflexivity.
 Qed.
 
+Definition ex_eth : bytes := [0;102;102;102;102;102].
+
+(* ---- the default router ---- *)
+(* it only gates the attack: what a pass decides to send does not depend on WHICH router is the default *)
+Theorem default_only_gates st i order k k' :
+  defrouter st = Some k ->
+  lookup (mkSt (hunt st) (loops st) (routers st) (Some k') (repeat_ st) (closed st)) i order =
+  (let '(s, o) := lookup st i order in
+   (mkSt (hunt s) (loops s) (routers s) (Some k') (repeat_ s) (closed s), o)).
+Proof.
+  intros Hd. unfold lookup. cbn [loops hunt closed defrouter routers].
+  destruct (nth_error (loops st) i) as [l|]; [|destruct st; cbn in *; subst; reflexivity].
+  destruct (negb (l_alive l)); [destruct st; cbn in *; subst; reflexivity|].
+  destruct (l_pending l); [|destruct st; cbn in *; subst; reflexivity].
+  destruct (negb (al_has (hunt st) (a_mac (l_dst l))) || closed st); [reflexivity|]. rewrite Hd. reflexivity.
+Qed.
+
+(* the chosen default neither follows a router lifetime of 0 nor a higher preference: two routers, the
+   second created later stays the default whatever the first one advertises afterwards *)
+Definition ra_hdr (flags : N) (life : N) : bytes := [134;0;0;0;64;flags;life / 256;life mod 256;0;0;0;0;0;0;0;0].
+Definition ex_src2 : bytes := [254;128;0;0;0;0;0;0;0;0;0;0;0;1;0;18].
+Example default_is_last_created :
+  let evs := [RxRA ex_src ex_eth (ra_hdr 0 1800) true; Tick; Tick; Tick;
+              RxRA ex_src2 ex_eth (ra_hdr 0 1800) true; Tick; Tick; Tick;
+              RxRA ex_src2 ex_eth (ra_hdr 0 0) true; Tick; Tick; Tick;        (* the default's lifetime goes to 0 *)
+              RxRA ex_src ex_eth (ra_hdr 8 9000) true] in                      (* the other one turns high preference *)
+  sp_default (spec_run (abs (init 3)) evs) = Some ex_src2 /\
+  exists a, tb_find (sp_table (spec_run (abs (init 3)) evs)) ex_src2 = Some a /\ ab_life a = 0.
+Proof.
+  cbv zeta. split; [vm_compute; reflexivity|].
+  eexists. split; vm_compute; reflexivity.
+Qed.
+
+(* ---- the rate limiter is process-wide ---- *)
+(* which of a handler's advertisements are processed depends on the advertisements OTHER handlers of the
+   process receive: the same two RAs from the same router leave different tables with and without one
+   foreign RA in between.  The property's "records ... exactly" is about processed advertisements
+   (refinement above); that a handler's learning is independent of other handlers is false. *)
+Theorem limiter_private_refuted : exists c p1 p2,
+  let own := [RxRA ex_src ex_eth p1 true; RxRA ex_src ex_eth p2 true] in
+  let shared := [RxRA ex_src ex_eth p1 true; Tick; Tick; Tick; RxRA ex_src ex_eth p2 true] in
+  sp_table (abs (snd (run c (init 3) own))) <> sp_table (abs (snd (run c (init 3) shared))).
+Proof.
+  exists ex_cfg, (ra_hdr 0 1800), (ra_hdr 0 600). cbv zeta. vm_compute. discriminate.
+Qed.
+
 (* non-vacuity: three advertisements of one router (full options; an update without MTU and with a
    zero router lifetime; a rejected one) and one of a second router, interleaved with other events *)
-Definition ex_eth : bytes := [0;102;102;102;102;102].
 Definition ex_life0 : bytes := hexb "86000000400000000000000000000000030440c000015180000038400000000020010db8000100020000000000000000"%string.
 Definition ex_refine_hist : list event :=
   [RxRA ex_src ex_eth wit_all true; StartHunt (mkAddr ex_mac []); Lookup 0 [0%nat]; Send 0;
@@ -160,12 +220,12 @@ Definition ex_refine_hist : list event :=
 
 Example refinement_nonvacuous :
   Forall ev_ok ex_refine_hist /\
-  exists a, tb_find (fst (spec_run (abs (init 3)) ex_refine_hist)) ex_src = Some a /\
+  exists a, tb_find (sp_table (spec_run (abs (init 3)) ex_refine_hist)) ex_src = Some a /\
     ab_life a = 0 /\ ab_mtu a = 0 /\ List.length (ab_prefixes a) = 1%nat /\ ab_rdnss a = [] /\
     ab_mac a = [170;187;204;221;238;255].
 Proof.
   split.
   - repeat constructor; apply bytes_okb_spec; vm_compute; reflexivity.
-  - destruct (tb_find (fst (spec_run (abs (init 3)) ex_refine_hist)) ex_src) as [a|] eqn:E; [|vm_compute in E; discriminate].
+  - destruct (tb_find (sp_table (spec_run (abs (init 3)) ex_refine_hist)) ex_src) as [a|] eqn:E; [|vm_compute in E; discriminate].
     exists a. split; [reflexivity|]. vm_compute in E. inversion E; subst a. repeat split; reflexivity.
 Qed.
